@@ -770,7 +770,7 @@ def explore(tier, seed, jobs, totals):
     for name in INITS:
         T, S, R = build_init(name)
         inits.append(({"init": name, "labels": []}, concrete_key(T, S)))
-    cap = 400000 if tier == "thorough" else None
+    cap = 600000 if tier == "thorough" else None
     bfs(__import__("mc.props.C04", fromlist=["x"]), inits, MAXD + 1, jobs, totals, chunk=CHUNK, state_cap=cap)
     totals.cases = totals.states
     totals.samples = totals.samples or [inits[0][0]]
